@@ -21,7 +21,7 @@ LAYER = {1: "invariant: PkgOK (manifest file entries = package files, each once;
          7: "rdf-entry: save deleted a manifest.rdf that the manifest lists with an empty media type and kept the entry",
          6: "twin: an operation on one of original / clone broke PkgOK of the other (shared state); saving the other gives a zip its manifest does not describe",
          8: "bookkeeping: the invariant the theorems assume (unique keys, current folder time stamps, cached XML parts only) is lost"}
-WEIGHTS = dict(addfile=6, frame=2, **{"del": 4}, delmandatory=1, **{"import": 2}, set=1, get=1, touch=1, edit=1, save=4, saveself=1, reopen=3, clone=2, clone2=1, swap=2, merge=3, delpic=2, addobject=1, editobj=1)
+WEIGHTS = dict(addfile=6, frame=2, **{"del": 4}, delmandatory=1, **{"import": 2}, set=1, get=1, touch=1, edit=1, save=4, saveself=1, reopen=3, clone=2, clone2=1, swap=2, merge=3, delpic=2, addobject=1, editobj=1, importnew=2)
 
 
 def zip_problems(entries):
@@ -108,6 +108,8 @@ def make_histories(tier, rng):
 
 def key_of(rec, code, probs):
     k = rec["concrete"]["op"]
+    if k == "del" and rec["concrete"].get("spell") in ("dotslash", "dotshortcut"):
+        k = "del-dotslash"
     if code == 1 or code == 3:
         return "%s/%s" % (k, "manifest-incoherent")
     if code == 2:
@@ -185,7 +187,7 @@ def run(tier, seed, replay=None):
         samples=samples, op_histogram=hist_ops, histories=len(done), histories_timed_out=sum(1 for _, e in failed if e == "timeout"),
         harness_failures=len(harness_failures), corpus_cases=len(corpus),
         fidelity_divergences=sum(1 for c in bad.values() if c == 9), fidelity_by_op=fid, saved_zips_with_problems_by_direct_oracle=len(oracle_bad),
-        model_variant="FIXED" + ("" if fxv[0] else " without the repair of F35") + ("" if fxv[1] else " without the repair of F42"),
+        model_variant="FIXED" + "".join(" without the repair of %s" % n for n, v in zip(("F35", "F42", "F43"), fxv) if not v),
         exhaustive=False)
     pkglib.cleanup(work)
     return common.finish(PROP, tier, seed, proofs, coverage, violations, known_seen, t0,
